@@ -358,7 +358,8 @@ pub fn c18(g: &mut Gen) {
 pub fn c20(g: &mut Gen) {
     let cases: Vec<(u64, u64)> = if g.thorough { vec![(2, 100_000), (16, 50_000), (64, 10_000), (1, 1000)] } else { vec![(2, 20_000), (16, 5_000), (64, 1_000), (1, 100)] };
     // one group (one process): the counter is process-wide, so all cases share it
-    let lines: Vec<String> = cases.iter().map(|(t, c)| format!("tmp {} {} name-part", t, c)).collect();
+    let mut lines: Vec<String> = cases.iter().map(|(t, c)| format!("tmp {} {} name-part", t, c)).collect();
+    for part in ["name-part", "a_b", "x_1_2", "7", "_", "simple-sds"] { lines.push(format!("tmp name {}", part)); }
     g.group(lines);
 }
 
